@@ -145,8 +145,10 @@ func (s *Subscription) Next(ctx context.Context) (Event, error) {
 		switch {
 		case event.IsEndOfSnapshot():
 			s.snapshotIndex = event.Index
-		case event.Index > 0 && event.Index <= s.snapshotIndex && !event.IsFramingEvent():
-			// already contained in the snapshot (zero is not a Raft index)
+		case event.Index > 0 && event.Index < s.snapshotIndex && !event.IsFramingEvent():
+			// older than the snapshot, which already contains it (zero is not a Raft
+			// index; a batch at the snapshot's own index is delivered: applying it
+			// again changes nothing and the index does not go backwards)
 			continue
 		}
 		return event, nil
